@@ -241,7 +241,8 @@ func sameKey(a, b ssa.Value) bool {
 
 func runC12(w *World, r *Report) {
 	optionSemantics(w, r, "C12")
-	c12OptionValidation(w, r)
+	phaseTables(w, r, "C12")
+	c12OptionValidation(w, r, "C12")
 	c12PositionSource(w, r)
 	c12Gate(w, r)
 	c12Namespaces(w, r)
